@@ -18,7 +18,7 @@ def encode(wl, ref='cogid'):
         c = concepts.setdefault(r[cidx], len(concepts) + 1)
         l = langs.setdefault(r[lidx], len(langs) + 1)
         g = r[gidx] if gidx is not None else 0
-        gs = g if isinstance(g, list) else [g]
+        gs = list(g) if isinstance(g, (list, tuple)) else [g]
         rows.append('%d.%d.%d.%s' % (k, c, l, ','.join(str(int(x)) for x in gs)))
     cols = [langs[l] for l in wl.cols]
     return rows, cols, concepts, langs
@@ -182,7 +182,7 @@ def oracle_etym(wl, d, ref='cogid'):
     return None
 
 
-def oracle_etym_multi(rng, d):
+def oracle_etym_multi(rng, d, drv=None):
     """rows that carry SEVERAL cognate ids (fuzzy / partial cognates: a list or a tuple of ids in the cell): the etymological dictionary
     lists the row under each of them, and under nothing else"""
     from lingpy import Wordlist
@@ -215,6 +215,13 @@ def oracle_etym_multi(rng, d):
         listed = sorted(k for s in slots for k in (s or []))
         if listed != sorted(k for k in carried if g in carried[k]):
             return 'etymdict(cogids given as %s): cognate id %r lists rows %r, carried by rows %r' % (kind, g, listed, sorted(k for k in carried if g in carried[k]))
+    if drv is not None:
+        # the same view from the Lean model (rows carry a list of ids there): C12_etymdict covers rows with several ids
+        rows, cols, cmap, lmap = encode(wl, ref='cogids')
+        _, m_ety, _, _, _, _ = parse_sections(drv.ask('wlviews|%s|%s|%d' % (' '.join(rows), ' '.join(map(str, cols)), -1)))
+        real_ety = {str(g): [list(s_) if s_ else [] for s_ in slots] for g, slots in ety.items()}
+        if real_ety != m_ety:
+            return 'etymdict(cogids given as %s) differs from the Lean model: %r vs %r' % (kind, sorted(real_ety.items())[:3], sorted(m_ety.items())[:3])
     return None
 
 
@@ -359,7 +366,7 @@ def run_views(chk, which):
             e = None
             try:
                 if which == 'C12':
-                    e = oracle_views(wl, d) or oracle_etym(wl, d) or oracle_etym_multi(rng, d)
+                    e = oracle_views(wl, d) or oracle_etym(wl, d) or oracle_etym_multi(rng, d, drv)
                     for alias, target in added_aliases:
                         for k in list(d)[1:4]:
                             if not e and wl[k, alias] != d[k][d[0].index(target)]:
